@@ -14,6 +14,8 @@ structure St where
   parent : View := { heightRaw := none, tsRaw := none, feeRaw := none, root := 0 }
   fresh : Nat := 1          -- next unused root id
   live : Bool := false      -- a `seq` line has been seen
+  prev : Option View := none  -- the parent before the last verified block (for `sib`)
+  sib : Option Nat := none    -- post-state root of the last verified sibling
 
 def rulesOf (s : St) : Int → Rules := fun ts =>
   if ts < s.sw then { minBlockGap := s.g1, minEmptyBlockGap := s.e1 }
@@ -60,7 +62,7 @@ def parseRules (ws : List String) : Option (Int × Int × Int × Int × Int) :=
 /--
 `seq <T0> gen <g1> <e1> <sw> <g2> <e2>`                     parent = the real genesis commit
 `seq <T0> syn <g1> <e1> <sw> <g2> <e2> <hraw|x> <traw|x> <x|e|s>`  parent = hand-made state
-`exec <height> <a..|n..> <0|v|i|s|V|w> <p|r> <y|n|f>`             one `Processor.Execute`
+`exec|sib <height> <a..|n..> <0|v|i|s|V|w> <p|r|s> <y|n|f>`             one `Processor.Execute`
 -/
 def step (s : St) (ws : List String) : St × String :=
   match ws with
@@ -84,8 +86,13 @@ def step (s : St) (ws : List String) : St × String :=
         | _, _ => ({ s with live := false }, "bad-op")
       | _, _ => ({ s with live := false }, "bad-op")
     | _, _ => ({ s with live := false }, "bad-op")
-  | ["exec", h, ts, tx, rk, rp] =>
-    if !s.live then (s, "bad-op") else
+  | [op, h, ts, tx, rk, rp] =>
+    -- `exec`: on the current parent, adopted when it verifies; `sib`: on the parent before the
+    -- last verified block (a fork), never adopted, its post-state root is remembered for `s`
+    if op != "exec" && op != "sib" then (s, "bad-op") else
+    let isSib := op == "sib"
+    if !s.live || (isSib && s.prev.isNone) then (s, "bad-op") else
+    let parent := if isSib then s.prev.getD s.parent else s.parent
     match h.toNat?, parseTs s.t0 ts with
     | some h, some ts =>
       if h ≥ 18446744073709551616 then (s, "bad-op") else
@@ -95,8 +102,8 @@ def step (s : St) (ws : List String) : St × String :=
         else if tx == "V" then some (2, true, true) else if tx == "w" then some (1, true, true)
         else none
       let rkk : Option Nat :=
-        if rk == "p" then some s.parent.root else if rk == "r" then some (s.parent.root + 1000000)
-        else none
+        if rk == "p" then some parent.root else if rk == "r" then some (parent.root + 1000000)
+        else if rk == "s" then s.sib else none
       let rpk : Option Bool :=
         if rp == "y" then some false else if rp == "n" || rp == "f" then some true else none
       match txk, rkk, rpk with
@@ -104,12 +111,13 @@ def step (s : St) (ws : List String) : St × String :=
         let env : Env := { now := s.t0, rules := rulesOf s, replayOk := replayOk, txsOk := txsOk,
                            sigsOk := sigsOk, nextFee := [], newRoot := s.fresh }
         let b : Block := { height := h, ts := ts, numTxs := n, stateRoot := root }
-        match execute env s.parent b with
+        match execute env parent b with
         | .error e => (s, errName e)
         | .ok v =>
           let hs := match v.heightRaw.bind parseU64 with | some x => toString x | none => "?"
           let tss := match v.tsRaw.bind parseU64 with | some x => toString (toI64 x) | none => "?"
-          ({ s with parent := v, fresh := s.fresh + 1 }, s!"ok {hs} {tss}")
+          if isSib then ({ s with sib := some v.root, fresh := s.fresh + 1 }, s!"ok {hs} {tss}")
+          else ({ s with parent := v, prev := some s.parent, fresh := s.fresh + 1 }, s!"ok {hs} {tss}")
       | _, _, _ => (s, "bad-op")
     | _, _ => (s, "bad-op")
   | ["build", t0, d, h, g, e, mp] =>
